@@ -190,26 +190,35 @@ func signerPasses(sg *signerSpec, st *bStep, pkAlgos []string) (pass, decided bo
 	return false, true
 }
 
+// passwordOutcome plays the documented behaviour of Password/PasswordCallback
+// under RetryableAuthMethod ("retried up to maxTries … If maxTries is <= 0, will
+// retry indefinitely"; an error from the callback ends the method): does it
+// pass the step, and if not, does it ever stop trying.
+func passwordOutcome(m *methodSpec, st *bStep) (pass, stops bool) {
+	for call := 1; call <= 1000; call++ {
+		if call == m.pwErrOnCall {
+			return false, true
+		}
+		pw := ""
+		if len(m.pwList) > 0 {
+			pw = m.pwList[min(call, len(m.pwList))-1]
+		}
+		if pw == st.password {
+			return true, true
+		}
+		if !m.wrapped || (m.maxTries > 0 && call >= m.maxTries) {
+			return false, true
+		}
+	}
+	return false, false
+}
+
 // methodPasses: would the client's method pass the step.
 func methodPasses(m *methodSpec, st *bStep, pkAlgos []string) (pass, decided bool) {
 	switch m.name {
 	case "password":
-		if m.pwErrOnCall > 0 {
-			return false, true
-		}
-		tries := 1
-		if m.wrapped {
-			tries = m.maxTries
-			if tries <= 0 {
-				tries = 1 << 20
-			}
-		}
-		for i := 0; i < len(m.pwList) && i < tries; i++ {
-			if m.pwList[i] == st.password {
-				return true, true
-			}
-		}
-		return false, true
+		pass, _ := passwordOutcome(m, st)
+		return pass, true
 	case "keyboard-interactive":
 		return m.kiMode == 0, true
 	case "publickey":
@@ -280,10 +289,12 @@ func predict(spec *clientSpec, b *bServer) string {
 				return "compatible"
 			}
 		} else {
-			if next.wrapped && next.maxTries <= 0 {
-				// "If maxTries is <= 0, will retry indefinitely": the client never
-				// moves on; the server ends the connection (attempt limits)
-				return "incompatible"
+			if next.name == "password" {
+				if _, stops := passwordOutcome(next, st); !stops {
+					// "If maxTries is <= 0, will retry indefinitely": the client never
+					// moves on; the server ends the connection (attempt limits)
+					return "incompatible"
+				}
 			}
 			tried[next.name] = true
 		}
